@@ -69,6 +69,14 @@ def make(value: str):
         return ev.FileMovedEvent("/a", "/b")
     if value == "E":
         return ev.FileMovedEvent("/a", "/c")
+    if value == "Ab":
+        # the bytes spelling of A's path: an event of another watch, equal hash in CPython, not an equal event
+        return ev.FileModifiedEvent(b"/a")
+    if value == "Ad":
+        # a path that differs from A's only by Unicode normalisation form is another file
+        return ev.FileModifiedEvent("/a\u0301")
+    if value == "An":
+        return ev.FileModifiedEvent("/\u00e1")
     if value == "Aw1":
         return (ev.FileModifiedEvent("/a"), ObservedWatch("/w1", recursive=True))
     if value == "Aw2":
@@ -79,7 +87,7 @@ def make(value: str):
 
 
 VALUES = ["A", "B", "C", "Aw1", "Aw2"]
-VALUES_WIDE = ["A", "B", "C", "S", "D", "E", "Aw1", "Aw2", "Aw1n"]
+VALUES_WIDE = ["A", "B", "C", "S", "D", "E", "Aw1", "Aw2", "Aw1n", "Ab", "Ad", "An"]
 
 
 def new_queue():
@@ -160,7 +168,7 @@ def run_pairs(b: Batch):
                ev.DirModifiedEvent, ev.DirCreatedEvent, ev.DirMovedEvent]
     objs = []
     for c in classes:
-        for src in ("/a", "/b", b"/a"):
+        for src in ("/a", "/b", b"/a", "/a\u0301", "/\u00e1"):
             for dest in ("", "/d"):
                 for syn in (False, True):
                     objs.append(c(src, dest, is_synthetic=syn))
@@ -473,6 +481,11 @@ def run_batch(spec):
             fixed = [spec["first"]] + ([spec["second"]] if "second" in spec else [])
             for ops in itertools.product(alpha, repeat=spec["len"] - len(fixed)):
                 run_sequence(b, fixed + list(ops), spec["how"])
+        if "maxlen" in spec:
+            # near-equal items back to back (equal hash / equal up to normalisation / synthetic twin): all are delivered
+            for x, y in itertools.permutations(["A", "Ab", "Ad", "An", "S", "C"], 2):
+                for ops_ in ([x, y], [x, y, "get", "get"], [x, y, x, y], [x, "get", y, x]):
+                    run_sequence(b, list(ops_), spec["how"])
         b.sample({"sequence": ["A", "A", "get", "A", "B", "A"], "how": spec["how"]})
     elif kind == "seq1":
         run_sequence(b, spec["ops"], spec["how"])
